@@ -105,6 +105,15 @@ pub enum Step {
     RemoveLoose,
     /// atomically put the named multi-pack-index in place (rename over any existing one)
     Midx(String),
+    /// the environment thread looks up an absent object through a handle of its own: forces the shared store to
+    /// consolidate with the disk state at this point of the history (what any other user of the store would cause)
+    Refresh,
+    /// the environment thread's handle starts / stops demanding stable pack ids (`prevent_pack_unload`)
+    StableOn,
+    StableOff,
+    /// scripted histories: wait until the reader signalled / tell the reader to go on (spin with yield = blocking for the scheduler)
+    AwaitReader,
+    SignalReader,
 }
 
 #[derive(Serialize, Deserialize, Hash, Clone, Debug)]
@@ -120,6 +129,9 @@ pub struct Cfg {
     no_refresh: Vec<bool>,
     bound: usize,
     schedule: Option<Vec<usize>>,
+    /// number of slots of the store (default 4); small values force slot reuse
+    #[serde(default)]
+    slots: Option<u16>,
 }
 
 pub fn history(name: &str) -> Vec<Step> {
@@ -133,6 +145,13 @@ pub fn history(name: &str) -> Vec<Step> {
         "pack-loose" => [ins(4), vec![Step::RemoveLoose]].concat(),
         "midx-write" => vec![Step::Midx("midx12".into())],
         "midx-repack" => [ins(3), vec![Step::Midx("midx4".into())], rm(0), rm(1)].concat(),
+        // slot reuse: after the repack the cleared slots of P1/P2 are refilled by a later pack while a reader still holds P1's index
+        "repack-add-refresh" => [ins(3), vec![Step::Refresh], rm(0), rm(1), vec![Step::Refresh], ins(2), vec![Step::Refresh]].concat(),
+        // the same with a stable handle around while the packs vanish (slots are trashed, not cleared), which then goes away
+        // scripted variants: the environment starts after the reader has P1's index and the reader continues after the script
+        "repack-add-refresh-scripted" => [vec![Step::AwaitReader], history("repack-add-refresh"), vec![Step::SignalReader]].concat(),
+        "trash-reuse-scripted" => [vec![Step::AwaitReader], history("trash-reuse"), vec![Step::SignalReader]].concat(),
+        "trash-reuse" => [vec![Step::StableOn], ins(3), vec![Step::Refresh], rm(0), rm(1), vec![Step::Refresh, Step::StableOff], ins(2), vec![Step::Refresh]].concat(),
         other => vkit::machinery!("unknown history {other}"),
     }
 }
@@ -175,6 +194,7 @@ fn apply(fx: &Fixture, live: &Path, step: &Step) {
             let _ = std::fs::remove_file(&tmp);
             std::fs::hard_link(fx.staging.join(tag), &tmp).and_then(|()| std::fs::rename(&tmp, pack.join("multi-pack-index")))
         }
+        Step::Refresh | Step::StableOn | Step::StableOff | Step::AwaitReader | Step::SignalReader => Ok(()), // handled by the environment thread itself
     };
     if let Err(e) = r {
         vkit::machinery!("environment step {step:?} failed: {e}");
@@ -197,7 +217,7 @@ fn body(fx: &Arc<Fixture>, live: &Path, c: &Cfg) -> Result<String, String> {
             live.to_owned(),
             &mut None.into_iter(),
             gix_odb::store::init::Options {
-                slots: gix_odb::store::init::Slots::Given(4),
+                slots: gix_odb::store::init::Slots::Given(c.slots.unwrap_or(4)),
                 object_hash: gix_hash::Kind::Sha1,
                 use_multi_pack_index: true,
                 current_dir: Some(live.to_owned()),
@@ -207,11 +227,38 @@ fn body(fx: &Arc<Fixture>, live: &Path, c: &Cfg) -> Result<String, String> {
     );
     let steps = history(&c.history);
     let mut handles = Vec::new();
+    // (reader reached its rendezvous, environment finished its script)
+    let flags = Arc::new((std::sync::atomic::AtomicBool::new(false), std::sync::atomic::AtomicBool::new(false)));
     {
-        let (fx, live) = (fx.clone(), live.to_owned());
+        let (fx, live, store, flags) = (fx.clone(), live.to_owned(), store.clone(), flags.clone());
         handles.push(shuttle::thread::spawn(move || -> Result<String, String> {
+            let mut env_handle = None;
+            let mut buf = Vec::new();
             for s in &steps {
                 point();
+                match s {
+                    Step::Refresh => {
+                        let h = env_handle.get_or_insert_with(|| store.to_handle_arc());
+                        if let Ok(Some(_)) = Find::try_find(&*h, &fx.ids[4], &mut buf) {
+                            return Err("wrong-content: the absent object was 'found' by the environment handle".into());
+                        }
+                    }
+                    Step::StableOn => {
+                        let mut h = store.to_handle_arc();
+                        h.prevent_pack_unload();
+                        env_handle = Some(h);
+                    }
+                    Step::StableOff => {
+                        env_handle = None;
+                    }
+                    Step::AwaitReader => {
+                        while !flags.0.load(std::sync::atomic::Ordering::SeqCst) {
+                            shuttle::thread::yield_now();
+                        }
+                    }
+                    Step::SignalReader => flags.1.store(true, std::sync::atomic::Ordering::SeqCst),
+                    _ => {}
+                }
                 apply(&fx, &live, s);
                 if tracing() {
                     eprintln!("[env] applied {s:?}");
@@ -221,7 +268,7 @@ fn body(fx: &Arc<Fixture>, live: &Path, c: &Cfg) -> Result<String, String> {
         }));
     }
     for (r, ops) in c.readers.iter().enumerate() {
-        let (fx, store, ops) = (fx.clone(), store.clone(), ops.clone());
+        let (fx, store, ops, flags) = (fx.clone(), store.clone(), ops.clone(), flags.clone());
         let (stable, no_refresh) = (c.stable[r], c.no_refresh[r]);
         handles.push(shuttle::thread::spawn(move || -> Result<String, String> {
             let mut h = store.to_handle_arc();
@@ -237,6 +284,16 @@ fn body(fx: &Arc<Fixture>, live: &Path, c: &Cfg) -> Result<String, String> {
                 let id = fx.ids[*i];
                 if tracing() {
                     eprintln!("[reader {r}] {op} object #{i} ...");
+                }
+                if op == "signal" {
+                    flags.0.store(true, std::sync::atomic::Ordering::SeqCst);
+                    continue;
+                }
+                if op == "await" {
+                    while !flags.1.load(std::sync::atomic::Ordering::SeqCst) {
+                        shuttle::thread::yield_now();
+                    }
+                    continue;
                 }
                 if op == "find" {
                     match Find::try_find(&h, &id, &mut buf) {
@@ -362,7 +419,9 @@ pub fn run(run: &'static Run) {
     let f = |i: usize| ("find".to_string(), i);
     let has = |i: usize| ("contains".to_string(), i);
     let mut add = |history: &str, midx0: bool, readers: Vec<Vec<(String, usize)>>, stable: Vec<bool>, no_refresh: Vec<bool>, bound: usize| {
-        cases.push(Cfg { history: history.into(), start_with_midx: midx0, readers, stable, no_refresh, bound, schedule: None });
+        // the slot-reuse histories run on a store with exactly 3 slots so that the round-robin slot search wraps around
+        let slots = history.contains("-reuse") .then_some(3).or(history.contains("repack-add-refresh").then_some(3));
+        cases.push(Cfg { history: history.into(), start_with_midx: midx0, readers, stable, no_refresh, bound, schedule: None, slots });
     };
     let max_bound = if q { 1 } else { 2 };
     for bound in 0..=max_bound {
@@ -374,6 +433,16 @@ pub fn run(run: &'static Run) {
         add("midx-repack", true, vec![vec![f(0), f(1)]], vec![false], vec![false], bound);
         add("add-pack", false, vec![vec![f(3), f(4)]], vec![false], vec![false], bound);
         add("repack", false, vec![vec![has(0), f(0)]], vec![false], vec![true], bound);
+        // stale reader: knows P1's index (contains) but not its pack data, looks the object up after the slots were recycled
+        for h in ["repack-add-refresh-scripted", "trash-reuse-scripted"] {
+            let sync = |op: &str| (op.to_string(), 0usize);
+            add(h, false, vec![vec![has(0), sync("signal"), sync("await"), f(0)]], vec![false], vec![false], bound);
+            add(h, false, vec![vec![has(1), sync("signal"), sync("await"), f(1), f(0)]], vec![false], vec![false], bound.min(1));
+        }
+        for h in ["repack-add-refresh", "trash-reuse"] {
+            add(h, false, vec![vec![has(0), f(0)]], vec![false], vec![false], bound);
+            add(h, false, vec![vec![has(1), f(1), f(0)]], vec![false], vec![false], bound.min(1));
+        }
         if bound <= 1 || !q {
             // two readers sharing the store: index loading races + consolidation
             add("none", false, vec![vec![f(0)], vec![f(1)]], vec![false, false], vec![false, false], bound);
@@ -382,6 +451,11 @@ pub fn run(run: &'static Run) {
             add("pack-loose", false, vec![vec![f(2)], vec![has(2)]], vec![false, false], vec![false, false], bound.min(1));
             add("midx-repack", true, vec![vec![f(0)], vec![f(1)]], vec![false, true], vec![false, false], bound.min(1));
         }
+    }
+    if let Ok(only) = std::env::var("VERIF_C12_ONLY") {
+        // development aid: restrict to one history (reported as a cap)
+        cases.retain(|c| c.history == only);
+        run.cap_hit("VERIF_C12_ONLY set: only one history explored");
     }
     cases.sort_by_key(|c| c.bound);
     cases.dedup_by(|a, b| vkit::hash_of(a) == vkit::hash_of(b));
